@@ -148,6 +148,12 @@ pub trait Prop: Sync {
     fn level(&self) -> &'static str {
         "exploration"
     }
+    /// stop the search once this many cases have failed (0 = the driver's default: a large budget in
+    /// the quick tier, none in the thorough tier).  For properties whose failing cases are very
+    /// expensive (C19: every hang costs its wall limit twice).
+    fn fail_budget(&self) -> u64 {
+        0
+    }
     /// class labels that must occur at least once per run (generator health)
     fn required_classes(&self, _tier: Tier) -> Vec<&'static str> {
         vec![]
